@@ -216,6 +216,8 @@ def fixed_cases(d):
     t = p.new("Table", "t1")
     c = p.new("AliasedQuery", "c1")
     body = p.call(p.call(p.call(Q, "from_", t), "select", p.call(t, "field", "id")), "where", p.bin(">", p.call(t, "field", "a"), "cte-v"))
+    # (constants that look like templates to whatever assembles the WITH clause)
+    body = p.call(p.call(body, "where", p.bin("!=", p.call(t, "field", "b"), "{{x}} {0} }{ {name}")), "where", p.call(p.call(t, "field", "c"), "like", "100%% %s {}"))
     q = p.call(p.call(p.call(p.call(Q, "with_", body, "c1"), "from_", c), "select", p.call(c, "field", "id"), "lit"), "where", p.bin("<", p.call(c, "field", "id"), 99))
     out.append({"k": "program", "prog": p.prog(dialect=d, fixed="cte"), "tgt": q.i})
     return out
@@ -396,9 +398,14 @@ def check_object(o, d, mon, label):
     try:
         with hooks.collect() as tree_i:
             sql_i = o.get_sql(ctx)
-    except Exception:
+    except Exception as e_inline:
         mon.count("inline_render_raises")
-        return None
+        try:
+            o.get_sql(ctx.copy(parameterizer=reg["Parameterizer"]()))
+        except Exception:
+            return None
+        # the two renderings are the same statement: one cannot exist without the other
+        return ("raises-inline-only:%s" % type(e_inline).__name__, "the inline render raised %r although the parameterised render succeeds" % e_inline, None)
     pz = reg["Parameterizer"]()
     with hooks.collect() as tree:
         try:
